@@ -19,7 +19,7 @@ DECIDES = ("Decided: (a) substitution visits every recursive position of the typ
            "summaries over the call-graph closure, fresh-root classification); (c) constructors copy the mutable things "
            "they are given; (d) TypeConstructor.new reinstalls only `supertypes`, on the new object's constructor copy; "
            "(e) every ParameterizedType construction site wraps a constructor that went through perform_type_substitution "
-           "or a function type constructor with ground supertypes.")
+           "or a function type constructor with ground supertypes. Also: the input of a substitution is handed back unchanged only where it cannot contain a variable of the map; inside src/ir/types.py only ParameterizedType.__init__ binds type_args; TypeConstructor.new rewrites the supertypes with the arguments as given.")
 NOT_DECIDED = "equality of the result with an independent substitution (value level)."
 
 T = "src.ir.types"
